@@ -531,6 +531,23 @@ type chunkWriter struct {
 
 func (w *chunkWriter) Write(p []byte) (int, error) { w.calls++; return w.buf.Write(p) }
 
+// holdWriter blocks inside its first Write until released, and copies what it was given only afterwards
+type holdWriter struct {
+	buf     bytes.Buffer
+	first   bool
+	entered chan struct{}
+	release chan struct{}
+}
+
+func (w *holdWriter) Write(p []byte) (int, error) {
+	if !w.first {
+		w.first = true
+		close(w.entered)
+		<-w.release
+	}
+	return w.buf.Write(p)
+}
+
 func runC09(c *core.Case, st *core.CaseStats, rep func(fn, kind string, in, exp, act interface{}), guard func(fn string, in interface{}, f func()) bool) {
 	switch c.Fn {
 	case "roundtrip":
@@ -621,6 +638,41 @@ func runC09(c *core.Case, st *core.CaseStats, rep func(fn, kind string, in, exp,
 				core.RetainBytes(st, c, "GCMDecrypt", in, dec)
 			}
 		}
+	case "streamoverlap":
+		n, m := argI(c, 0), argI(c, 1)
+		pa, pb, secret := rb(n), rb(m), rb(9)
+		in := map[string]interface{}{"first_plain": pa, "second_plain": pb}
+		st.Nontrivial++
+		guard("EncryptStreamTo", in, func() {
+			wa := &holdWriter{entered: make(chan struct{}), release: make(chan struct{})}
+			done := make(chan error, 1)
+			go func() { done <- cryptz.EncryptStreamTo(wa, bytes.NewReader(pa), secret) }()
+			select {
+			case <-wa.entered:
+			case <-time.After(5 * time.Second):
+				close(wa.release)
+				<-done
+				return // the call never wrote (an empty stream written in one piece later): nothing to overlap
+			}
+			var wb bytes.Buffer
+			errB := cryptz.EncryptStreamTo(&wb, bytes.NewReader(pb), secret)
+			close(wa.release)
+			errA := <-done
+			if errA != nil || errB != nil {
+				rep("EncryptStreamTo", "value", in, "no error", fmt.Sprint(errA, errB))
+				return
+			}
+			for _, x := range []struct {
+				name string
+				enc  []byte
+				want []byte
+			}{{"the call that was held in its first Write", wa.buf.Bytes(), pa}, {"the call that ran meanwhile", wb.Bytes(), pb}} {
+				var out bytes.Buffer
+				if err := cryptz.DecryptStreamTo(&out, bytes.NewReader(x.enc), secret); err != nil || !bytes.Equal(out.Bytes(), x.want) {
+					rep("EncryptStreamTo", "value", in, map[string]interface{}{"round trip of": x.name}, fmt.Sprint(out.Bytes(), err))
+				}
+			}
+		})
 	case "opensslform":
 		n, wrap := argI(c, 0), argS(c, 1)
 		plain, secret, salt := rb(n), rb(11), rb(8)
